@@ -519,7 +519,8 @@ class TDMProgram(Program):
         self._unrolled_shots = shots
 
         vac_modes = self.concurr_modes - 1
-        self._num_added_subsystems = self.timebins - self.init_num_subsystems + vac_modes
+        # one new mode per time bin of every shot, so that no mode is used twice
+        self._num_added_subsystems = shots * self.timebins - self.init_num_subsystems + vac_modes
         if self._num_added_subsystems > 0:
             self._add_subsystems(self._num_added_subsystems)
 
